@@ -1,0 +1,261 @@
+//! Hooks for external verification tooling (cargo feature `verif`).
+//!
+//! Everything here is a thin forwarding wrapper over crate internals, so that
+//! a harness outside the crate can drive them with arbitrary inputs. Nothing
+//! in this module is part of xt's API, and nothing else in the crate uses it.
+
+use std::borrow::Cow;
+use std::io::{self, BufRead, Read};
+
+use serde::{Deserialize, Deserializer, Serialize, Serializer};
+
+use crate::input::{Handle, Input, Ref};
+use crate::{detect, transcode, Format};
+
+/// The answer of format detection for a slice input.
+pub fn detect_slice(input: &[u8]) -> io::Result<Option<Format>> {
+	detect::detect_format(&mut Handle::from_slice(input))
+}
+
+/// The answer of format detection for a reader input.
+pub fn detect_reader<R: Read>(input: R) -> io::Result<Option<Format>> {
+	detect::detect_format(&mut Handle::from_reader(input))
+}
+
+/// The answer of format detection for a reader input, followed by whether the
+/// input handle turned into a slice, and by everything that the consumer of
+/// the handle can subsequently read from it (read to the end with a buffer of
+/// `drain_buf` bytes per call).
+pub fn detect_reader_then_drain<R: Read>(
+	input: R,
+	drain_buf: usize,
+) -> (io::Result<Option<Format>>, bool, io::Result<Vec<u8>>) {
+	let mut handle = Handle::from_reader(input);
+	let detected = detect::detect_format(&mut handle);
+	match handle.into() {
+		Input::Slice(b) => (detected, true, Ok(b.into_owned())),
+		Input::Reader(mut r) => {
+			let mut all = vec![];
+			let mut buf = vec![0u8; drain_buf.max(1)];
+			loop {
+				match r.read(&mut buf) {
+					Ok(0) => return (detected, false, Ok(all)),
+					Ok(n) => all.extend_from_slice(&buf[..n]),
+					Err(err) => return (detected, false, Err(err)),
+				}
+			}
+		}
+	}
+}
+
+/// The answer of a single format's detection trial on a fresh handle.
+pub fn input_matches_slice(format: Format, input: &[u8]) -> io::Result<bool> {
+	input_matches(format, Handle::from_slice(input).borrow_mut())
+}
+
+/// The answer of a single format's detection trial on a fresh handle.
+pub fn input_matches_reader<R: Read>(format: Format, input: R) -> io::Result<bool> {
+	input_matches(format, Handle::from_reader(input).borrow_mut())
+}
+
+fn input_matches(format: Format, input: Ref) -> io::Result<bool> {
+	match format {
+		Format::Json => crate::json::input_matches(input),
+		Format::Msgpack => crate::msgpack::input_matches(input),
+		Format::Toml => crate::toml::input_matches(input),
+		Format::Yaml => crate::yaml::input_matches(input),
+	}
+}
+
+/// One step of a program driving the rewindable input handle.
+#[derive(Clone, Copy, Debug)]
+pub enum HandleOp {
+	/// Drop the current reference (if any) and call `borrow_mut`.
+	Borrow,
+	/// `read` into a buffer of this size through the current reference.
+	Read(usize),
+	/// Call `prefix` with this size hint on the current reference.
+	Prefix(usize),
+	/// Convert the handle into an `Input`; a reader is then read to its end
+	/// with a buffer of this size per call. Ends the program.
+	IntoInput(usize),
+	/// Convert the handle into a `Cow`. Ends the program.
+	IntoCow,
+}
+
+/// What a program step made observable.
+#[derive(Clone, Debug)]
+pub enum HandleObs {
+	/// `borrow_mut` produced a slice with this content.
+	RefSlice(Vec<u8>),
+	/// `borrow_mut` produced a capturing reader.
+	RefReader,
+	/// `read` returned these bytes.
+	Read(Vec<u8>),
+	/// `prefix` returned this content.
+	Prefix(Vec<u8>),
+	/// The handle became a slice input with this content.
+	InputSlice(Vec<u8>),
+	/// The handle became a reader input that produced this content.
+	InputReader(Vec<u8>),
+	/// The handle became a `Cow` with this content.
+	Cow(Vec<u8>),
+	/// The step returned an error with this text.
+	Err(String),
+	/// The step does not apply (for example `Read` on a slice reference).
+	Skipped,
+}
+
+/// Runs a program of handle operations over a reader input.
+pub fn handle_program<'i, R: Read + 'i>(reader: R, ops: &[HandleOp]) -> Vec<HandleObs> {
+	let mut handle = Handle::from_reader(reader);
+	let mut obs = vec![];
+	let mut i = 0;
+	while i < ops.len() {
+		match ops[i] {
+			HandleOp::Borrow => {
+				let mut input_ref = handle.borrow_mut();
+				obs.push(match &input_ref {
+					Ref::Slice(b) => HandleObs::RefSlice(b.to_vec()),
+					Ref::Reader(_) => HandleObs::RefReader,
+				});
+				i += 1;
+				while i < ops.len() {
+					match ops[i] {
+						HandleOp::Read(n) => obs.push(match &mut input_ref {
+							Ref::Slice(_) => HandleObs::Skipped,
+							Ref::Reader(r) => {
+								let mut buf = vec![0u8; n];
+								match r.read(&mut buf) {
+									Ok(len) => HandleObs::Read(buf[..len].to_vec()),
+									Err(err) => HandleObs::Err(err.to_string()),
+								}
+							}
+						}),
+						HandleOp::Prefix(n) => obs.push(match input_ref.prefix(n) {
+							Ok(b) => HandleObs::Prefix(b.to_vec()),
+							Err(err) => HandleObs::Err(err.to_string()),
+						}),
+						_ => break,
+					}
+					i += 1;
+				}
+			}
+			HandleOp::Read(_) | HandleOp::Prefix(_) => {
+				obs.push(HandleObs::Skipped);
+				i += 1;
+			}
+			HandleOp::IntoInput(drain_buf) => {
+				obs.push(match handle.into() {
+					Input::Slice(b) => HandleObs::InputSlice(b.into_owned()),
+					Input::Reader(mut r) => {
+						let mut all = vec![];
+						let mut buf = vec![0u8; drain_buf.max(1)];
+						loop {
+							match r.read(&mut buf) {
+								Ok(0) => break HandleObs::InputReader(all),
+								Ok(n) => all.extend_from_slice(&buf[..n]),
+								Err(err) => break HandleObs::Err(err.to_string()),
+							}
+						}
+					}
+				});
+				return obs;
+			}
+			HandleOp::IntoCow => {
+				let result: io::Result<Cow<'i, [u8]>> = handle.try_into();
+				obs.push(match result {
+					Ok(b) => HandleObs::Cow(b.into_owned()),
+					Err(err) => HandleObs::Err(err.to_string()),
+				});
+				return obs;
+			}
+		}
+	}
+	obs
+}
+
+/// The size of the first MessagePack value in `input`, or an error code
+/// (0 = truncated, 1 = invalid marker, 2 = depth limit exceeded).
+pub fn msgpack_value_size(input: &[u8], depth_limit: usize) -> Result<usize, u8> {
+	crate::msgpack::verif_next_value_size(input, depth_limit)
+}
+
+/// The depth limit that xt applies to every MessagePack input.
+pub const MSGPACK_DEPTH_LIMIT: usize = crate::msgpack::VERIF_DEPTH_LIMIT;
+
+/// The number of leading bytes that YAML encoding detection looks at.
+pub const YAML_DETECT_LEN: usize = crate::yaml::verif::DETECT_LEN;
+
+/// The detected encoding of a YAML stream prefix (0 = UTF-8, 1 = UTF-16BE,
+/// 2 = UTF-32BE, 3 = UTF-16LE, 4 = UTF-32LE).
+pub fn yaml_encoding_detect(prefix: &[u8]) -> u8 {
+	crate::yaml::verif::encoding_detect(prefix)
+}
+
+/// A reader producing the UTF-8 re-encoding of `reader`, read as `encoding`
+/// (numbered as in [`yaml_encoding_detect`]).
+pub fn yaml_encoder_new<'a>(reader: Box<dyn BufRead + 'a>, encoding: u8) -> Box<dyn Read + 'a> {
+	crate::yaml::verif::encoder_new(reader, encoding)
+}
+
+/// A reader producing the UTF-8 re-encoding of `reader`, with the source
+/// encoding detected from its first bytes.
+pub fn yaml_encoder_from_reader<'a>(
+	reader: Box<dyn BufRead + 'a>,
+) -> io::Result<Box<dyn Read + 'a>> {
+	crate::yaml::verif::encoder_from_reader(reader)
+}
+
+/// The YAML document chunker over a UTF-8 reader: each item is a document's
+/// text and whether its content is a collection.
+pub fn yaml_chunker<'a>(
+	reader: Box<dyn Read + 'a>,
+) -> Box<dyn Iterator<Item = io::Result<(String, bool)>> + 'a> {
+	crate::yaml::verif::chunker(reader)
+}
+
+/// The raw parser event trace (type, start offset, end offset) of a UTF-8 YAML
+/// stream, up to the stream end event or the first error.
+pub fn yaml_events<'a>(reader: Box<dyn Read + 'a>) -> (Vec<(u32, u64, u64)>, Option<io::Error>) {
+	crate::yaml::verif::events(reader)
+}
+
+/// The outcome of a failed [`transcode`].
+#[derive(Debug)]
+pub enum TranscodeError<S, D> {
+	/// Attributed to the serializer, with the deserializer's error as context.
+	Ser(S, D),
+	/// Attributed to the deserializer.
+	De(D),
+}
+
+/// Runs the streaming transcoder, returning the attribution of any failure
+/// along with the `Display` text of the transcoder's own error value.
+pub fn transcode_stream<'de, S, D>(
+	ser: S,
+	de: D,
+) -> Result<S::Ok, (TranscodeError<S::Error, D::Error>, String)>
+where
+	S: Serializer,
+	D: Deserializer<'de>,
+{
+	transcode::transcode(ser, de).map_err(|err| {
+		let text = err.to_string();
+		match err {
+			transcode::Error::Ser(s, d) => (TranscodeError::Ser(s, d), text),
+			transcode::Error::De(d) => (TranscodeError::De(d), text),
+		}
+	})
+}
+
+/// Collects a deserializer's output into xt's borrowed value type, then
+/// replays the value into a serializer.
+pub fn transcode_value<'de, S, D>(ser: S, de: D) -> Result<Result<S::Ok, S::Error>, D::Error>
+where
+	S: Serializer,
+	D: Deserializer<'de>,
+{
+	let value = transcode::Value::deserialize(de)?;
+	Ok(value.serialize(ser))
+}
